@@ -124,6 +124,8 @@ def run(rep, tier):
                      + tok(c['bkg']) + ' | ' + ' '.join(map(str, labels)))
         checks.append((c, rows))
         probes(rep, r, c, cat, rows)
+        if k % 6 == 0:
+            wcs_probe(rep, r, c)
     thin_segments_probe(rep, r, 40 * scale)
     out = drv.run(lines)
     if out is None:
@@ -404,6 +406,43 @@ def detection_catalog_probe(rep, r, c):
                 rep.violation(f'column-ne-definition:detection_cat:{nm}', f'label {lab} with a detection catalogue: {nm} = {g} but the defining formula on this '
                               f"catalogue's unmasked finite segment pixels gives {e}", dict(rp, label=lab))
                 return
+
+
+def wcs_probe(rep, r, c):
+    """(S) with a WCS: the sky positions are the images of the pixel positions they are defined by - sky_centroid of (xcentroid, ycentroid),
+    the four sky_bbox_* vertices of the OUTSIDE corners of the minimal bounding box (bbox_xmin - 0.5 ... bbox_xmax + 0.5; defect F67)"""
+    from astropy.wcs import WCS
+    w = WCS(naxis=2)
+    w.wcs.crpix = [r.uniform(1, 8), r.uniform(1, 8)]
+    w.wcs.cdelt = [-0.0005, 0.0005]
+    w.wcs.crval = [r.uniform(20, 200), r.uniform(-40, 40)]
+    w.wcs.ctype = ['RA---TAN', 'DEC--TAN']
+    try:
+        cat = make_cat(c, wcs=w)
+        with warnings.catch_warnings():
+            warnings.simplefilter('ignore')
+            xmin, xmax, ymin, ymax = (np.atleast_1d(np.asarray(getattr(cat, n_), float)) for n_ in ('bbox_xmin', 'bbox_xmax', 'bbox_ymin', 'bbox_ymax'))
+            want = {'sky_bbox_ll': (xmin - 0.5, ymin - 0.5), 'sky_bbox_ul': (xmin - 0.5, ymax + 0.5), 'sky_bbox_lr': (xmax + 0.5, ymin - 0.5),
+                    'sky_bbox_ur': (xmax + 0.5, ymax + 0.5),
+                    'sky_centroid': (np.atleast_1d(np.asarray(cat.xcentroid, float)), np.atleast_1d(np.asarray(cat.ycentroid, float)))}
+            got = {}
+            for nm in want:
+                sk = getattr(cat, nm)
+                px = w.world_to_pixel(sk)
+                got[nm] = (np.atleast_1d(np.asarray(px[0], float)), np.atleast_1d(np.asarray(px[1], float)))
+    except Exception as e:                                      # noqa: BLE001
+        rep.violation(f'catalog-raises:wcs:{type(e).__name__}', f'SourceCatalog with a WCS raised {e!r}', replay_of(c))
+        return
+    rep.probe_only += 1
+    rep.count('wcs-probe')
+    for nm, (wx, wy) in want.items():
+        gx, gy = got[nm]
+        fin = np.isfinite(wx) & np.isfinite(wy)
+        if not (np.allclose(gx[fin], wx[fin], atol=1e-6) and np.allclose(gy[fin], wy[fin], atol=1e-6)):
+            j = int(np.flatnonzero(fin & ~(np.isclose(gx, wx, atol=1e-6) & np.isclose(gy, wy, atol=1e-6)))[0])
+            rep.violation(f'sky-position:{nm}', f'{nm} of source #{j} maps back to pixel ({gx[j]:.4f}, {gy[j]:.4f}); its definition gives ({wx[j]:.4f}, {wy[j]:.4f}) '
+                          f'(bbox x {xmin[j]:.0f}..{xmax[j]:.0f}, y {ymin[j]:.0f}..{ymax[j]:.0f})', replay_of(c))
+            return
 
 
 def probes(rep, r, c, cat, rows):
